@@ -7,7 +7,11 @@ functions are finished — the same order and the same events the compile log of
 model of §5 of Model/Classes.lean is tied to the real compiler by comparing traces.
 
 Events: `G<k>`/`S<k>` fixed-index get/set, `g`/`s` by-name get/set, `u` GetSuper; in the enclosing
-function of a class declaration: `C` Class, `I` Inherit, `M` Method, `F` Field, `T` StaticMethod.
+function of a class declaration: `C` Class, `I<x>` Inherit, `M` Method, `F` Field, `T` StaticMethod.
+`<x>` is the instruction that pushed the superclass (`Classes.superLoad`): `O` = `LoadGlobal` (the
+built-in `Object` read from the global module), `m` = `GetModSym` (a module variable, or the module's
+copy of the global `Object`), `l` = `GetLocal/GetBox/GetCapture` (a local of an enclosing function).
+For that the trace keeps the names in scope the way the compiler does (`locals`, `scope_depth`).
 -/
 import LaytheVerif.Model.ClassLang
 namespace LaytheVerif.ClassCompile
@@ -18,8 +22,29 @@ structure CState where
   inInit : Bool := false                 -- `self.fun_kind == FunKind::Initializer`
   trace : Array String := #[]            -- events of the function being compiled
   done : Array (String × Array String) := #[]   -- finished functions
+  scope : NameScope := {}                -- `locals` of this and all enclosing compilers; module-level declarations
+  depth : Nat := 0                       -- 0 = module scope (`scope_depth == 1`): declarations are module symbols
 
 def CState.emit (s : CState) (e : String) : CState := { s with trace := s.trace.push e }
+
+/-- `declare_variable` in a block or function: a new local (at module scope the name is a module symbol,
+already part of `scope.declared`) -/
+def CState.declare (s : CState) (x : String) : CState :=
+  if s.depth = 0 then s else { s with scope := { s.scope with locals := x :: s.scope.locals } }
+
+/-- `begin_scope` / a child compiler: what follows is not module scope; `params` are declared -/
+def CState.enter (s : CState) (params : List String) : CState :=
+  { s with depth := s.depth + 1, scope := { s.scope with locals := params.reverse ++ s.scope.locals } }
+
+/-- `end_scope` / `end_compiler`: the locals declared since `outer` are gone -/
+def CState.leave (s outer : CState) : CState := { s with depth := outer.depth, scope := outer.scope }
+
+/-- the `Inherit` event with the instruction that pushed the superclass -/
+def inheritEvent (sc : NameScope) (parent : Option String) : String :=
+  match superLoad sc parent with
+  | .loadGlobal => "IO"
+  | .moduleCopy => "Im"
+  | .lexical p => if sc.locals.contains p then "Il" else "Im"
 
 def showAccess (isSet : Bool) : Access → String
   | .fixed k => (if isSet then "S" else "G") ++ toString k
@@ -47,10 +72,10 @@ def compExpr (fuel : Nat) (s : CState) (e : Expr) : CState :=
     | .call f args => compArgs fuel (compExpr fuel s f) args
     | .superGet _ => s.emit "u"
     | .add a b => compExpr fuel (compExpr fuel s a) b
-    | .lam _ body =>
+    | .lam params body =>
       -- a nested function: its own trace, `fun_kind = Fun`; the class attributes are inherited
-      let inner := compStmts fuel { s with trace := #[], inInit := false } body
-      { inner with trace := s.trace, inInit := s.inInit, done := inner.done.push ("lambda", inner.trace) }
+      let inner := compStmts fuel ({ s with trace := #[], inInit := false }.enter params) body
+      { inner.leave s with trace := s.trace, inInit := s.inInit, done := inner.done.push ("lambda", inner.trace) }
 termination_by structural fuel
 
 def compArgs (fuel : Nat) (s : CState) (args : List Expr) : CState :=
@@ -76,7 +101,9 @@ def compStmt (fuel : Nat) (s : CState) (st : Stmt) : CState :=
   | 0 => s
   | fuel + 1 =>
     match st with
-    | .print e | .letS _ e | .exprS e | .ret e => compExpr fuel s e
+    | .print e | .exprS e | .ret e => compExpr fuel s e
+    -- `let_`: the variable is declared before its initialiser is compiled
+    | .letS x e => compExpr fuel (s.declare x) e
     | .setf obj name e =>
       -- `assign`: receiver, then (initialiser only, receiver `self`) record_field, then the value, then the set
       let s := compExpr fuel s obj
@@ -86,49 +113,69 @@ def compStmt (fuel : Nat) (s : CState) (st : Stmt) : CState :=
       let cls := if isSelf then s.attrs else none
       s.emit (showAccess true (propertyAccess cls name))
     | .tryS body handler =>
-      let s := compStmts fuel s body
-      -- the rendered handler starts with `print("caught " + e.cls().name() + ": " + e.message);`
-      let s := ((s.emit "g").emit "g").emit "g"
-      compStmts fuel s handler
+      let s := (compStmts fuel (s.enter []) body).leave s
+      -- the rendered handler `catch e: Error {` starts with `print("caught " + e.cls().name() + ": " + e.message);`
+      let s1 := (((s.enter ["e"]).emit "g").emit "g").emit "g"
+      (compStmts fuel s1 handler).leave s
+    | .classS name parent init methods statics =>
+      compClass fuel s (ClassDecl.ofParts name parent init methods statics)
+termination_by structural fuel
+
+/-- `function(...)`: compile a function body as its own record (`self` is local 0 of a method) -/
+def compFun (fuel : Nat) (s : CState) (name : String) (params : List String) (body : List Stmt) (isInit : Bool) : CState :=
+  match fuel with
+  | 0 => s
+  | fuel + 1 =>
+    let inner := compStmts fuel ({ s with trace := #[], inInit := isInit }.enter params) body
+    { inner.leave s with trace := s.trace, inInit := s.inInit, done := inner.done.push (name, inner.trace) }
+termination_by structural fuel
+
+def compMethods (fuel : Nat) (s : CState) (tag : String) (fs : List FunSrc) : CState :=
+  match fuel with
+  | 0 => s
+  | fuel + 1 =>
+    match fs with
+    | [] => s
+    | f :: r => compMethods fuel ((compFun fuel s f.name f.params f.body false).emit tag) tag r
+termination_by structural fuel
+
+/-- `Compiler::class` -/
+def compClass (fuel : Nat) (s : CState) (d : ClassDecl) : CState :=
+  match fuel with
+  | 0 => s
+  | fuel + 1 =>
+    let outer := s
+    -- the class name is declared, `Class`; then the superclass is pushed in the scope that now holds the name
+    let s := (s.declare d.name).emit "C"
+    let s := s.emit (inheritEvent s.scope d.parent)
+    let declared := s
+    -- the class scope (with `super`)
+    let s := { s.enter ["super"] with attrs := some { fields := [], explicitSuper := d.parent.isSome } }
+    let s := match d.init with
+      | some f => (compFun fuel s "init" f.params f.body true).emit "M"
+      | none => s
+    -- emit_fields
+    let nf := match s.attrs with | some a => a.fields.length | none => 0
+    let s := (List.range nf).foldl (fun s _ => s.emit "F") s
+    let s := compMethods fuel s "M" d.methods
+    let s := compMethods fuel s "T" d.statics
+    { s.leave declared with attrs := outer.attrs }
 termination_by structural fuel
 
 end
 
 def FUEL : Nat := 100000
 
-/-- `function(...)`: compile a function body as its own record -/
-def compFun (s : CState) (name : String) (body : List Stmt) (isInit : Bool) : CState :=
-  let inner := compStmts FUEL { s with trace := #[], inInit := isInit } body
-  { inner with trace := s.trace, inInit := s.inInit, done := inner.done.push (name, inner.trace) }
-
-def compMethods (s : CState) (tag : String) : List FunSrc → CState
-  | [] => s
-  | f :: r => compMethods ((compFun s f.name f.body false).emit tag) tag r
-
-/-- `Compiler::class` -/
-def compClass (s : CState) (d : ClassDecl) : CState :=
-  let outer := s.attrs
-  let s := (s.emit "C").emit "I"
-  let s := { s with attrs := some { fields := [], explicitSuper := d.parent.isSome } }
-  let s := match d.init with
-    | some f => (compFun s "init" f.body true).emit "M"
-    | none => s
-  -- emit_fields
-  let nf := match s.attrs with | some a => a.fields.length | none => 0
-  let s := (List.range nf).foldl (fun s _ => s.emit "F") s
-  let s := compMethods s "M" d.methods
-  let s := compMethods s "T" d.statics
-  { s with attrs := outer }
-
 def compItems (s : CState) : List Item → CState
   | [] => s
-  | .cls d :: r => compItems (compClass s d) r
-  | .fn f :: r => compItems (compFun s f.name f.body false) r
+  | .cls d :: r => compItems (compClass FUEL s d) r
+  | .fn f :: r => compItems (compFun FUEL s f.name f.params f.body false) r
   | .stmt st :: r => compItems (compStmt FUEL s st) r
 
-/-- the whole program: finished functions in order, the script last -/
+/-- the whole program: finished functions in order, the script last.  The module-level declarations are
+known before anything is compiled (the resolver's pre-pass `declare_module_scoped`). -/
 def compileTrace (items : List Item) : List (String × List String) :=
-  let s := compItems {} items
+  let s := compItems { scope := { declared := declaredNames items } } items
   (s.done.push ("script", s.trace)).toList.map fun p => (p.1, p.2.toList)
 
 end LaytheVerif.ClassCompile
